@@ -45,6 +45,14 @@ def gen(rng, tier):
             for fut in (1, 999, NS, 3600 * NS):
                 lines.append("cls %d %d 1 %d %d" % (leap, w, fut // NS, fut % NS))
                 tags.append("future")
+    # special reference times: the epoch itself (chronyd before it has selected a source), one
+    # nanosecond either side of it, whole-second ages, very old ones
+    NOW = 1_700_000_000 * NS + 500_000_000          # the harness's virtual "now" (harness/src/bound.rs)
+    for leap in (0, 1, 2, 3, 4, 7):
+        for w in (cfloat.encode(4.0), cfloat.encode(0.25), cfloat.encode(0.0), cfloat.encode(64.0), cfloat.word((1 << 24) - 1, 63)):
+            for age in (NOW, NOW - 1, NOW + 1, NOW - NS, NOW // 2, 3 * NS, 5 * NS, 7 * NS + 999999999, 10 ** 9 * NS):
+                lines.append("cls %d %d 0 %d %d" % (leap, w, age // NS, age % NS))
+                tags.append("special-reference-time")
     return lines, tags
 
 
